@@ -359,7 +359,7 @@ def main(tier, seed):
     try:
         translate()
         run.obligation("translate:mcmc.apply_boundary_conditions+check_bounds", True)
-    except TranslateError as e:
+    except Exception as e:  # fail closed: anything the translator cannot digest
         run.obligation("translate:mcmc.apply_boundary_conditions+check_bounds", False, str(e))
     run.prove("Props/C16.v", link_rels=["Link/Boundary.v"])
     run.prove("Props/C16F.v", allowed_axioms=STDLIB_AXIOMS_REALS)
